@@ -1,14 +1,15 @@
 """C06 — comments preserved: text of every comment survives (kernel level)."""
 from mirsym import models_typst as T
-from . import comments
+from . import comments, lists, flows
 
 EXPLANATION = (
     "Bounded symbolic execution (MIR->SMT, z3) of pretty/comment.rs: for every block comment '/*' + up to M code points + '*/' the "
     "document produced by block_comment has as many lines as the token and each line equals the token's line up to leading blanks of "
     "continuation lines and trailing blanks; every line comment '//' + up to M code points is emitted byte-identically by comment(). "
-    "Placement of comments by the layout helpers (order, no loss/duplication, line break after a line comment) is decided for the "
-    "flow and list helpers in C04's obligations; markup- and math-level placement and 'between the same neighbouring words' across "
-    "constructs need the parser as oracle and are outside the claim.")
+    "Conservation in the layout helpers: ListStylist (every ListStyle the crate builds, every fold style/option) and "
+    "convert_flow_like_iter + FlowStylist over every child sequence of up to K nodes (items, comments, commas, whitespace, hash, "
+    "keywords): in both observed layouts the comment and item atoms appear exactly once each, in source order. The chain and plain "
+    "stylists, markup- and math-level placement and 'between the same neighbouring words' across constructs are outside the claim.")
 
 
 def run(S):
@@ -17,5 +18,11 @@ def run(S):
     found = comments.explore_block(S, M, (0,), want=('C06',))
     found += comments.explore_line(S, M)
     comments.report(S, 'C06', found)
+    KL = 2 if S.tier == 'quick' else 3
+    KF = 3 if S.tier == 'quick' else 4
+    f2 = flows.explore_flow(S, KF, want=('C06',))
+    f2 += lists.explore(S, KL, want=('C06',))
+    lists.report(S, 'C06', f2)
+    S.assumptions += lists.ASSUMPTIONS
     S.assumptions += comments.ASSUMPTIONS
     return S.finish(level='other', explanation=EXPLANATION, trusted=['mirsym encoder', 'std string contracts', 'Doc algebra contracts'])
